@@ -23,6 +23,7 @@ RULE = (
     "ess_ratio in {1,2,4,8} (1..8 warm-up iterations), metric mode {ESS, volume-variation 0.1/0.3/2}, resampler, N in {16,32,64,128}, d in {1,2}, kernel, evaluation mode, seed); the instrumented "
     "likelihood counts finite/total per warm-up batch. Non-trivial = >=2 warm-up iterations with at least one -inf draw each. "
     "ensemble: R independently seeded runs per cell, error of the final log-evidence against the analytic value."
+    ' The *_full check draws a complete configuration with vlib.cfggen: every constructor option gets a generated value in every case (d, evaluation mode incl. one/two blobs, zero-likelihood region, narrow target, kernel, resampler, clustering, normalize, cluster_every, n_max_clusters, split_threshold, ess_ratio, ESS/volume-variation metric, n_particles incl. odd, n_steps/n_max_steps, periodic/reflective indices, pool kind, extra likelihood args/kwargs, random_state int/NumPy-int/None); the oracle is the same.'
 )
 ASSUMPTIONS = [
     "a warm-up batch with no finite draw at all is outside the claim (log 0) and is counted as skipped",
@@ -66,11 +67,14 @@ class NoFiniteDraw(BaseException):  # control flow of the harness, must pass thr
     pass
 
 
-def run_case(case, n_total_mult=2):
-    t = make_target(case)
-    np.random.seed(case["seed"])
-    s = make_sampler(t, dict(sample=case["kernel"], clustering=case["clustering"], n_particles=case["N"], ess_ratio=case["ess_ratio"],
-                             volume_variation=case.get("vv"), resample=case.get("resample", "mult")))
+def run_case(case, n_total_mult=2, built=None):
+    if built is None:
+        t = make_target(case)
+        np.random.seed(case["seed"])
+        s = make_sampler(t, dict(sample=case["kernel"], clustering=case["clustering"], n_particles=case["N"], ess_ratio=case["ess_ratio"],
+                                 volume_variation=case.get("vv"), resample=case.get("resample", "mult")))
+    else:
+        s, t = built
     core = core_of(s)
     st_ = core.state
     warm = []  # (beta, n_total, n_finite, logz recorded at commit)
@@ -103,8 +107,23 @@ def run_case(case, n_total_mult=2):
     return s, t, warm
 
 
-def exec_case(case):
-    s, t, warm = run_case(case)
+def full_cases():
+    from vlib import cfggen
+
+    return cfggen.full_config(pools=(None, None, "permuting", "executor", 1), allow_extra=False).map(
+        lambda c: dict(c, zero=True, N=c["n_particles"], seed=c["rs_value"], f=None, vv=None if c["metric"] == "ess" else float(c["metric"][2:])))
+
+
+def exec_full(case):
+    """the same invariants over complete random configurations (vlib.cfggen) on a target with a zero-likelihood region"""
+    from vlib import cfggen
+
+    np.random.seed(case["rs_value"] % 2**31)
+    return exec_case(case, built=cfggen.build(case))
+
+
+def exec_case(case, built=None):
+    s, t, warm = run_case(case, built=built)
     if warm is None:
         return {"nontrivial": False, "classes": ["skipped:no-finite-draw"]}
     st_ = s.state
@@ -112,6 +131,12 @@ def exec_case(case):
     for i in range(T):
         if np.any(np.isneginf(np.asarray(st_.get_history("logl", index=i), dtype=float))):
             raise Violation(f"history batch {i} contains log-likelihood -inf", sig={"kind": "neginf-stored"})
+        if case["mode"] == "blobs2":
+            xb, bb = np.asarray(st_.get_history("x", index=i)), np.asarray(st_.get_history("blobs", index=i), dtype=float)
+            for k in range(len(xb)):
+                if not np.array_equal(bb[k].ravel(), np.array(t.blob_vec(xb[k]))):
+                    raise Violation(f"history batch {i}, particle {k}: the stored blobs are not the blobs of the stored point: auxiliary data of "
+                                    "a replaced zero-likelihood draw was kept", sig={"kind": "excluded-draw-blob-stored"})
         if case["mode"] == "blobs":
             # nothing of an excluded draw may survive: the stored blob must be the blob of the stored (supported) point
             xb, bb = np.asarray(st_.get_history("x", index=i)), np.asarray(st_.get_history("blobs", index=i), dtype=float).reshape(-1)
@@ -144,9 +169,9 @@ def exec_case(case):
         if lz is None or not (lo - 1e-9 <= lz <= hi + 1e-9):
             raise Violation(
                 f"warm-up iteration {k + 1}: recorded log-evidence {lz!r} outside the range [{lo:.6f}, {hi:.6f}] of the batch fractions "
-                f"log(finite/total) seen so far (true log f = {math.log(case['f']):.6f}): the excluded mass is not counted exactly once",
+                f"log(finite/total) seen so far: the excluded mass is not counted exactly once",
                 sig={"kind": "warmup-logz-outside-hull"})
-    classes = ["metric:" + ("ess" if case.get("vv") is None else "vv"), "warmups=%d" % min(len(warm), 9), "f<0.5" if case["f"] < 0.5 else "f>=0.5", "mode:" + case["mode"],
+    classes = ["metric:" + ("ess" if case.get("vv") is None else "vv"), "warmups=%d" % min(len(warm), 9), "f=?" if case["f"] is None else ("f<0.5" if case["f"] < 0.5 else "f>=0.5"), "mode:" + case["mode"],
                "clustering" if case["clustering"] else "noclustering"]
     return {"nontrivial": with_inf >= 2, "classes": classes,
             "sample": {"f": case["f"], "N": case["N"], "ess_ratio": case["ess_ratio"], "warmup_batches": [[w[0], w[1], w[2]] for w in warm][:8]}}
@@ -212,6 +237,8 @@ class Ensemble:
 
 
 CHECKS = [
+    Check("warmup_full", full_cases, exec_full, n={"quick": 64, "thorough": 1200}, shards={"quick": 16, "thorough": 16},
+          shrink={"quick": False, "thorough": True}),
     Check("warmup", cases, exec_case, n={"quick": 160, "thorough": 3000}, shards={"quick": 16, "thorough": 16},
           shrink={"quick": False, "thorough": True}),
     Ensemble(),
